@@ -651,6 +651,18 @@ def absorb_renaming_aliases(fn, recorded_names):
                             del blk[i]
                             k += 1
                             continue
+                if b not in recorded_names and b not in _params(fn) and len(stores_b) == 1 and len(loads_b) > 1 and a != b:
+                    # `b = E; ...b...; a = b; ...b...`: b is bound once (earlier in this block), `a` is not mentioned between that
+                    # binding and the alias: b is spelled a from its binding on (all its occurrences lie in this block)
+                    j = next((jj for jj in range(i) if any(x is stores_b[0] for x in ast.walk(blk[jj]))), None)
+                    occ_b = [n for n in ast.walk(fn) if isinstance(n, ast.Name) and n.id == b]
+                    in_blk = sum(1 for st2 in blk for n in ast.walk(st2) if isinstance(n, ast.Name) and n.id == b)
+                    if j is not None and in_blk == len(occ_b) and not any(isinstance(x, ast.Name) and x.id == a for jj in range(j, i) for x in ast.walk(blk[jj])) and not any(isinstance(x, ast.Name) and x.id == a and isinstance(x.ctx, (ast.Store, ast.Del)) for jj in range(i + 1, len(blk)) for x in ast.walk(blk[jj])):
+                        for n in occ_b:
+                            n.id = a
+                        del blk[i]
+                        k += 1
+                        continue
                 if b not in recorded_names and b not in _params(fn) and len(stores_b) == 1 and len(loads_b) == 1 and a != b:
                     # the definition of b lies earlier in the same block; `a` is not touched in between
                     j = next((jj for jj in range(i) if any(x is stores_b[0] for x in ast.walk(blk[jj]))), None)
@@ -1972,6 +1984,9 @@ def inline_new_generators(project, rec):
             q = f"{caller.module.name}.{f.id}"
             if q in gens:
                 return gens[q], False
+            tgt = caller.module.imports.get(f.id)
+            if tgt in gens:
+                return gens[tgt], False
         if isinstance(f, ast.Attribute) and isinstance(f.value, ast.Name) and f.value.id == "self" and caller.cls is not None:
             m = project.lookup_method(caller.cls, f.attr)
             if m is not None and m.qualname in gens:
